@@ -422,6 +422,10 @@ def run(ctx, chk):
             if last is not None and last.kind == "int":
                 if last.hi - off <= (1 << 20) - 1:
                     chk.ok("C17.R3", f"{label}:end-in-space", f"range end <= {last.hi - off:#x} on the printing path")
+                elif last.exact and any(frozenset((p_, q_)) in st.corr for p_ in last.lineage for q_ in last.lineage if p_ != q_):
+                    # the operands the end was computed from were compared with each other afterwards (e.g. `n >= MB - a`):
+                    # the interval of the sum, taken before that test, says nothing about the printing path
+                    chk.undecided_("C17.R3", f"{label}:end-in-space", "the range end's operands are related by a later test; intervals cannot bound it")
                 elif last.exact:
                     chk.violation("C17.R3", label, "range-end-can-leave-1MB",
                                   f"{label}: the printing loop is reached with an inclusive end of up to {last.hi:#x} (attainable): the guard before the loop lets a range through "
@@ -521,10 +525,16 @@ def run(ctx, chk):
             if ":" in [s.strip('"') for s in syms] and syms.count("raw_addr") == 2:
                 guarded = [q for q in paths if any(e.kind == "push" for e in q.effects)]
                 conds = [c for q in guarded for c in q.conds]
+                cmpc = [c for c in conds if re.search(r"<|>", c[0]) and "matches" not in c[0]]
                 if any(("MB" in c[0] and ">=" in c[0] and not c[1]) or ("MB" in c[0] and "<" in c[0] and c[1]) for c in conds):
                     chk.ok("C17.R5", f"{label}:range-check", "emitted only when s+e < MB; otherwise error!")
-                else:
+                elif cmpc:
+                    # some other comparison guards the emission: whether it is the right bound is decided on values (R3)
+                    chk.ok("C17.R5", f"{label}:range-check", f"emitted only under `{cmpc[0][0][:40]}`; the bound itself is R3's question", nontrivial=False)
+                elif not any(any(e.kind == "error" for e in q.effects) for q in paths):
                     chk.violation("C17.R5", label, "no-range-check", f"{label}: a : n is emitted without testing a+n against the 1 MB space", f"{GA.g['file']}:{p['line']}")
+                else:
+                    chk.undecided_("C17.R5", f"{label}:range-check", "the emission is not visibly guarded by a comparison")
             else:
                 chk.ok("C17.R5", f"{label}:emits", "forwarded (template checked by C10/C11)", nontrivial=False)
     except Exception as e:  # noqa
